@@ -724,3 +724,60 @@ Proof.
     pose proof (fail_session_post y wi c Hc Hp) as [_ [_ K]]. exact K.
   - symmetry in E. eapply cuw_waiting; eauto.
 Qed.
+
+(* ================================================================================================== *)
+(* The "unable to resolve router exit" failure (FRouteError) cannot happen on validated definitions     *)
+(* ================================================================================================== *)
+
+Lemma path_location_frame : forall a x y i, fl y = fl x -> pth y = pth x ->
+  path_location a (session_ y) i = path_location a (session_ x) i.
+Proof.
+  intros a x y i Hf Hp.
+  assert (A : option_map r_flow (get_run (session_ y) i) = option_map r_flow (get_run (session_ x) i)) by (rewrite <- !nth_error_fl, Hf; reflexivity).
+  assert (B : option_map r_path (get_run (session_ y) i) = option_map r_path (get_run (session_ x) i)) by (rewrite <- !nth_error_pth, Hp; reflexivity).
+  unfold path_location. destruct (get_run (session_ y) i) as [ry|], (get_run (session_ x) i) as [rx|]; simpl in A, B; try discriminate; auto.
+  inversion A as [A']. inversion B as [B']. rewrite A', B'. reflexivity.
+Qed.
+
+Lemma path_location_node : forall a s i pos n, path_location a s i = Some (pos, n) ->
+  exists r f stp, get_run s i = Some r /\ get_flow a (r_flow r) = Some f /\ get_node f (st_node stp) = Some n.
+Proof.
+  intros a s i pos n. unfold path_location. destruct (get_run s i) as [r|]; [|discriminate].
+  destruct (r_path r); [discriminate|]. destruct (nth_error _ _) as [stp|]; [|discriminate].
+  destruct (get_flow a (r_flow r)) as [f|] eqn:Ef; [|discriminate].
+  destruct (get_node f (st_node stp)) as [n'|] eqn:En; [|discriminate]. intros H; inversion H; subst.
+  exists r, f, stp. repeat split; auto.
+Qed.
+
+Lemma pick_node_exit_timeout_no_goerr : forall a x ri n pos tmo rt w sec ci x',
+  n_router n = Some rt -> valid_router rt -> rt_wait rt = Some w -> w_timeout w = Some (sec, ci) ->
+  pick_node_exit a x ri n pos true tmo <> GoErr x'.
+Proof.
+  intros a x ri n pos tmo rt w sec ci x' Hr (_ & _ & Hw) Hrw Hto. unfold pick_node_exit. rewrite Hr.
+  unfold route_timeout. rewrite Hrw. destruct w as [wt wtm]. simpl in Hto. subst wtm.
+  destruct (route_to_category a x ri (Some (ri, pos)) n rt (Some ci) tmo []) as [y v| |] eqn:E; try discriminate.
+  - destruct v; discriminate.
+  - exfalso. eapply route_to_category_no_goerr; [|exact E]. eapply Hw; [exact Hrw|reflexivity].
+Qed.
+
+Theorem route_error_unreachable : forall a s r tmo wi pos n rt w y,
+  valid_assets a -> path_location a s wi = Some (pos, n) -> n_router n = Some rt -> rt_wait rt = Some w ->
+  accepts w r = true ->
+  find_resume_exit a (apply_resume (resume_x0 s) wi (Some (wi, pos)) r) wi (is_timeout r) tmo <> FreErr y.
+Proof.
+  intros a s r tmo wi pos n rt w y Hv Hpl Hr Hrw Hacc.
+  destruct (apply_resume_fl_pth (resume_x0 s) wi (Some (wi, pos)) r) as [Hf Hp].
+  set (x1 := apply_resume (resume_x0 s) wi (Some (wi, pos)) r) in *.
+  assert (Hpl1 : path_location a (session_ x1) wi = Some (pos, n)).
+  { rewrite (path_location_frame a (resume_x0 s) x1 wi Hf Hp). exact Hpl. }
+  destruct (path_location_node _ _ _ _ _ Hpl) as (r0 & f & stp & _ & Hfl & Hn).
+  destruct (valid_get_node _ _ _ _ _ Hv Hfl Hn) as [[_ Hvr] _].
+  unfold find_resume_exit. destruct (run_status (session_ x1) wi) as [[]|]; try discriminate.
+  rewrite Hpl1. destruct (pick_node_exit a x1 wi n pos (is_timeout r) tmo) as [z [e op]|z|] eqn:E; try discriminate.
+  exfalso. destruct r; simpl in E.
+  - eapply pick_node_exit_route_no_goerr; [|exact E]. exact Hvr.
+  - destruct w as [wt [[sec ci]|]]; simpl in Hacc; [|destruct wt; discriminate].
+    eapply pick_node_exit_timeout_no_goerr; [exact Hr|apply Hvr; exact Hr|exact Hrw|reflexivity|exact E].
+  - eapply pick_node_exit_route_no_goerr; [|exact E]. exact Hvr.
+  - eapply pick_node_exit_route_no_goerr; [|exact E]. exact Hvr.
+Qed.
